@@ -157,6 +157,31 @@ def impl_main(payload):
                     if len(grad) != L or any(abs(a - b) > 1e-4 * (1 + abs(b)) for a, b in zip(grad, fd)):
                         orc["viol"].append("%s%s gradient of %s is %r, finite differences give %r (seed %d, after data swap: %s)"
                                            % (metric, " relative" if rel else "", eq, grad.tolist(), fd, s, bool(phase)))
+        # ---- a nearly perfect fit (residuals of magnitude 1e-10): finite differences say nothing here, the chain rule does -
+        # gradient = d metric / d residuals . d residuals / d constants, with the equation's own constant-gradient as the last factor
+        g = AGraph(equation=eq)
+        L = g.get_number_local_optimization_params()
+        if L > 0:
+            c0 = rs.uniform(-1.5, 1.5, size=L)
+            g.set_local_optimization_params(c0)
+            f0, dfdc = g.evaluate_equation_with_local_opt_gradient_at(x)
+            f0, dfdc = np.asarray(f0, dtype=float).reshape(-1, 1), np.asarray(dfdc, dtype=float).reshape(len(x), L)
+            if np.all(np.isfinite(f0)) and np.all(np.isfinite(dfdc)):
+                y3 = f0 + 1e-10 * rs.uniform(0.5, 1.5, size=f0.shape) * rs.choice([-1, 1], size=f0.shape)
+                e = (f0 - y3).flatten()
+                n = len(e)
+                mse = float(np.mean(e * e))
+                for metric in ("mae", "mse", "rmse", "negative nmll laplace"):
+                    fit = ExplicitRegression(ExplicitTrainingData(x.copy(), y3.copy()), metric=metric)
+                    v3, grad = fit.get_fitness_and_gradient(g)
+                    grad = np.atleast_1d(np.asarray(grad, dtype=float))
+                    want = {"mae": np.mean(np.sign(e)[:, None] * dfdc, axis=0), "mse": 2 * np.mean(e[:, None] * dfdc, axis=0),
+                            "rmse": np.mean(e[:, None] * dfdc, axis=0) / math.sqrt(mse),
+                            "negative nmll laplace": (1 - 1 / math.sqrt(n)) * (n / 2) * (2 * np.mean(e[:, None] * dfdc, axis=0)) / mse}[metric]
+                    orc["checks"] += 1
+                    if len(grad) != L or any(abs(a - b) > 1e-6 * (abs(b) + 1e-300) for a, b in zip(grad, want)):
+                        orc["viol"].append("%s gradient of %s at a nearly perfect fit (residuals ~1e-10) is %r, the chain rule gives %r (seed %d)"
+                                           % (metric, eq, grad.tolist(), np.asarray(want).tolist(), s))
         if len(orc["samples"]) < 2:
             orc["samples"].append(dict(seed=s, equation=eq, points=m))
     return dict(results=results, oracle=orc)
